@@ -1056,7 +1056,11 @@ def _json_to_string(m, args, ci):
 def _json_from_str(m, args, ci):
     s, a, b = seq_of(args[0])
     g = ci.generic_args()
-    want = last_seg(type_head(g[-1])) if g else None
+    want = None
+    if g:
+        from .mir import split_top as _st
+        parts = [x for x in _st(g[-1]) if not x.startswith("'")]
+        want = last_seg(type_head(parts[-1])) if parts else None
     dty = ci.dest_type(m) or ''
     if want is None or want.startswith("'"):
         mm = re.match(r'^(?:std::result::)?Result<(.*), serde_json::Error>$', dty)
